@@ -449,8 +449,12 @@ def verify_two_writers(ctx):
     succeeded = [w for w in "AB" if r[w] == {"failed": []}]
     # the property as stated: all succeed and the object is there; at the very least a writer that reports success has its object
     lost = bool(succeeded) and not r["object_ok"]
+    # the finding is identified by its call site (two writers of ONE object through transfer(verify=True)) and its symptom (a
+    # writer's verification fails on / removes the object the other one is placing): whichever of the two loses under the
+    # schedule the machine happened to give
     sig = None
-    if r["pinned"] and r["A"] == {"failed": [r["oid"]]} and r["B"] == {"failed": []} and not r["object_ok"]:
+    symptoms = [r[w] for w in "AB" if r[w] != {"failed": []}]
+    if all(x == {"failed": [r["oid"]]} for x in symptoms) and (symptoms or not r["object_ok"]):
         sig = "verify-two-writers-verification-removes-the-other-writers-object"
     ctx.oracle(len(succeeded) == 2 and r["object_ok"] and not lost, case,
                {"why": "two writers transferring one object with verify=True: a writer failed, or a writer reported success while the object is missing", "result": r},
